@@ -244,7 +244,14 @@ impl Line {
             } else {
                 Some(Marker::OpenCircle)
             };
-            let new_line = if is_close_end_point {
+            // the endpoint nearer to the bullet is the one that is moved to its centre; when
+            // both are within reach (the half-cell stub next to the bullet) taking the end
+            // point unconditionally collapsed the stub to a zero-length line whenever the
+            // bullet sits at the line's (sorted) start: `*-`, or a bullet on top of `|`
+            let end_is_nearer = distance_end_center <= distance_start_center;
+            let new_line = if is_close_end_point
+                && (end_is_nearer || !is_close_start_point)
+            {
                 Line::new_noswap(self.start, circle.center, self.is_broken)
             } else if is_close_start_point {
                 // if close to the start, swap the end points of the line
